@@ -128,7 +128,7 @@ class Ctx(object):
             return False
 
     # ---- hypothesis driver -------------------------------------------------------------------
-    def run_given(self, name, strategy, prop_fn, max_examples, shrink=None, max_buckets=4, stateful=None):
+    def run_given(self, name, strategy, prop_fn, max_examples, shrink=None, max_buckets=12, stateful=None):
         """Drive prop_fn(case) with Hypothesis. prop_fn raises Discrepancy on a violation.
         After a failure the bucket is suppressed (counted) and the search continues, so that one
         shallow defect does not hide the others."""
